@@ -503,3 +503,49 @@ func skipSeqCases(c *Ctx, n int) []json.RawMessage {
 	}
 	return out
 }
+
+// ---- the template's SkipN protocol (SkipMachine.tla) -------------------------------------------------
+
+// recBackend is a recording SkipDecoderIface over a byte slice.
+type recBackend struct {
+	b     []byte
+	pos   int
+	calls []int
+}
+
+func (r *recBackend) SkipN(n int) ([]byte, error) {
+	r.calls = append(r.calls, n)
+	if n < 0 || r.pos+n > len(r.b) {
+		return nil, io.EOF
+	}
+	out := r.b[r.pos : r.pos+n]
+	r.pos += n
+	return out, nil
+}
+
+func runTplCase(raw json.RawMessage, w *TraceWriter) {
+	var cs SkipCase
+	if err := json.Unmarshal(raw, &cs); err != nil {
+		panic(err)
+	}
+	in := buildSkipInput(&cs)
+	rb := &recBackend{b: in.b}
+	ok := false
+	func() {
+		defer func() { recover() }()
+		ok = thrift.NewSkipDecoderTpl(rb).Skip(int8(cs.T), 64) == nil
+	}()
+	calls := rb.calls
+	for i, c := range calls { // sizes beyond the input are all "short": clamp so that they fit TLC's integers
+		if c > len(in.b)+1 {
+			calls[i] = len(in.b) + 1
+		}
+	}
+	if calls == nil {
+		calls = []int{}
+	}
+	w.Ev("tpl", "t", cs.T, "in", in.JSON(), "calls", calls, "ok", ok)
+}
+
+var famTpl = Register(&Family{Name: "tpl", Spec: "Trace_SkipMachine", Cfg: "Trace_SkipMachine.cfg", Run: runTplCase,
+	Sig: func(raw json.RawMessage, line string) string { return "tpl/verdict" }})
